@@ -129,6 +129,31 @@ type Proj struct {
 	Kind ProjKind
 	Name string // field or tag name; for a call the argument field
 	Func string // count sum mean min max first last
+	// Alias, when not empty, renames the output column (AS "alias"). Without an alias a call's
+	// column is named after the function, which is only unambiguous when the function occurs once.
+	Alias string
+}
+
+// Column is the name of the output column of the projection item.
+func (p Proj) Column() string {
+	switch {
+	case p.Alias != "":
+		return p.Alias
+	case p.Kind == ProjCall:
+		return p.Func
+	}
+	return p.Name
+}
+
+// Calls returns the indices of the calls in the SELECT list.
+func (q *Query) Calls() []int {
+	var out []int
+	for i, p := range q.Proj {
+		if p.Kind == ProjCall {
+			out = append(out, i)
+		}
+	}
+	return out
 }
 
 // TimeBound is one comparison of time with an absolute instant. Style selects the literal form.
@@ -170,10 +195,10 @@ type Query struct {
 	Fill      FillMode
 	FillInt   int64
 
-	Desc                           bool
-	Limit, RowOffset               int
-	SLimit, SOffset                int
-	PreviousFollowsOutputOrder     bool // not InfluxQL: evaluate fill(previous) in output order (models a known engine behaviour)
+	Desc                       bool
+	Limit, RowOffset           int
+	SLimit, SOffset            int
+	PreviousFollowsOutputOrder bool // not InfluxQL: evaluate fill(previous) in output order (models a known engine behaviour)
 }
 
 // IsCall reports whether the query projects an aggregate/selector call.
@@ -302,6 +327,9 @@ func (q *Query) String() string {
 			sb.WriteString(p.Func + "(" + quoteIdent(p.Name) + ")")
 		default:
 			sb.WriteString(quoteIdent(p.Name))
+		}
+		if p.Alias != "" {
+			sb.WriteString(" AS " + quoteIdent(p.Alias))
 		}
 	}
 	sb.WriteString(" FROM " + quoteIdent(q.Measurement))
